@@ -2622,4 +2622,120 @@ where
           · exact hc x h') h
         exact ⟨d, ⟨fun x hx => ha.1 x (List.mem_cons_of_mem _ hx), ha.2⟩, by rw [holds_of_negative hk]; simp [ha.1 m (by simp)], he⟩
 
+
+/-! ### size of the result set -/
+
+theorem length_setInsert_le (a : Str) (l : List Str) : (setInsert a l).length ≤ l.length + 1 := by
+  induction l with
+  | nil => simp [setInsert]
+  | cons b bs ih =>
+    simp only [setInsert]
+    split
+    · simp
+    · split
+      · simp
+      · simp only [List.length_cons]; omega
+
+/-- directives at which the fold can insert a configuration -/
+def Dir.weight : Dir → Nat
+  | .opn _ _ => 1
+  | .els => 1
+  | _ => 0
+
+def dirsWeight (ds : List Dir) : Nat := (ds.map Dir.weight).sum
+
+theorem dirsWeight_cons (d : Dir) (ds : List Dir) : dirsWeight (d :: ds) = d.weight + dirsWeight ds := by
+  simp [dirsWeight]
+
+theorem dirsWeight_append (a b : List Dir) : dirsWeight (a ++ b) = dirsWeight a + dirsWeight b := by
+  simp [dirsWeight]
+
+theorem length_step_le (fl : Flags) (inp : Inp) (s : St) (d : Dir) :
+    (step fl inp s d).ret.length ≤ s.ret.length + d.weight := by
+  unfold step
+  cases hs : s.skip with
+  | some lvl =>
+    cases d with
+    | endif => simp only; split <;> simp [stepEndif, Dir.weight]
+    | opn k m => simp [Dir.weight]
+    | els => simp [Dir.weight]
+    | region r => simp [Dir.weight]
+    | define m => simp [Dir.weight]
+  | none =>
+    cases d with
+    | region r => simp [Dir.weight]
+    | define m => simp [Dir.weight]
+    | endif => simp [stepEndif, Dir.weight]
+    | opn k m =>
+      simp only [Dir.weight]
+      rcases stepOpen_cases fl inp s k m with e | ⟨e, n, ret, _, _, hr, eq⟩
+      · simp only [e]; omega
+      · simp only [eq]
+        have h1 := length_setInsert_le (cfg (e :: s.ifs) inp.userDefines) ret
+        have h2 : ret.length ≤ s.ret.length := by
+          rcases hr with hr | ⟨y, hr⟩ <;> subst hr
+          · exact Nat.le_refl _
+          · exact List.length_erase_le
+        omega
+    | els =>
+      simp only [Dir.weight, stepElse]
+      split
+      · simp
+      · split
+        · simp
+        · split
+          · next cand rest _ _ =>
+            have h1 := length_setInsert_le (cfg (cand :: pop s.ifs) inp.userDefines) (s.ret.erase (cand ++ '=' :: cand))
+            have h2 : (s.ret.erase (cand ++ '=' :: cand)).length ≤ s.ret.length := List.length_erase_le
+            exact Nat.le_trans h1 (by omega)
+          · split <;> simp
+
+theorem length_run_le (fl : Flags) (inp : Inp) : ∀ (ds : List Dir) (s : St),
+    (run fl inp s ds).ret.length ≤ s.ret.length + dirsWeight ds
+  | [], s => by simp [run_nil, dirsWeight]
+  | d :: ds, s => by
+    rw [run_cons, dirsWeight_cons]
+    have h1 := length_run_le fl inp ds (step fl inp s d)
+    have h2 := length_step_le fl inp s d
+    omega
+
+theorem dirsWeight_flatten : ∀ t : Items, dirsWeight t.flatten ≤ 2 * t.macros.length
+  | .done => by simp [Items.flatten, dirsWeight]
+  | .region r rest => by
+    have := dirsWeight_flatten rest
+    simpa [Items.flatten, dirsWeight_cons, Dir.weight, Items.macros] using this
+  | .cond k m t rest => by
+    have h1 := dirsWeight_flatten t
+    have h2 := dirsWeight_flatten rest
+    simp only [Items.flatten, dirsWeight_cons, dirsWeight_append, Dir.weight, Items.macros, List.length_cons, List.length_append]
+    omega
+  | .condElse k m t e rest => by
+    have h1 := dirsWeight_flatten t
+    have h2 := dirsWeight_flatten e
+    have h3 := dirsWeight_flatten rest
+    simp only [Items.flatten, dirsWeight_cons, dirsWeight_append, Dir.weight, Items.macros, List.length_cons, List.length_append]
+    omega
+
+/-- at most one configuration per `#if..`/`#else` line besides the empty one -/
+theorem length_getConfigsWith_le (fl : Flags) (inp : Inp) (t : Items) :
+    (getConfigsWith fl inp t.flatten).length ≤ 1 + 2 * t.macros.length := by
+  have h1 := length_run_le fl inp t.flatten (St.init inp)
+  have h2 := dirsWeight_flatten t
+  simp only [getConfigsWith]
+  have : (St.init inp).ret.length = 1 := rfl
+  omega
+
+theorem effDefines_eq_defines (inp : Inp) (c x : Str) (hud : inp.userDefines = []) (hx : x ∉ inp.undefs) :
+    effDefines inp c x = defines c x := by
+  simp [effDefines, hud, hx, defines_nil]
+
+/-- facts about the specification-side definition `effDefines` (what `simplecpp::preprocess` makes of -D / -U); true by
+    unfolding, they say nothing about the code -/
+theorem U_effective (inp : Inp) (c X : Str) (h : X ∈ inp.undefs) : effDefines inp c X = false := by
+  simp [effDefines, h]
+
+theorem D_effective (inp : Inp) (c X : Str) (h : defines inp.userDefines X = true) (hu : X ∉ inp.undefs) :
+    effDefines inp c X = true := by
+  simp [effDefines, h, hu]
+
 end Cppcheck.Configs
